@@ -469,6 +469,7 @@ def generate():
     L.append("  | nop | pop (c k : Int) | push (c k : Int) | read (n : Nat) | may | throw | jump | ret | stop | settop")
     L.append("  | seq (a b : Act) | branch (a b : Act) | try (body handler : Act) | call (body : Act)")
     L.append("  | setf (i : Nat) (v : Bool) | iff (i : Nat) (a b : Act)")
+    L.append("  | savepos (i : Nat) | restorepos (i : Nat) | loop (body : Act)")
     L.append("  deriving Repr, Inhabited")
     L.append("")
     L.append("/-- every `case OP_X:` of `ScriptVM::Process` with the helpers it calls inlined, in source order -/")
